@@ -1784,7 +1784,31 @@ impl World {
                             r#"{"c":[["k","zz","cd"]]}"#, r#"{"c":5}"#,
                         ];
                         let mut force_matching_name = false;
-                        let body: Vec<u8> = match g.below(6) {
+                        let mut forced_name: Option<String> = None;
+                        let body: Vec<u8> = match g.below(7) {
+                            6 => {
+                                // a well-typed, correctly indexed block on top of a real block whose record refers to an
+                                // object that is stored nowhere (new revision or previous revision)
+                                let ghost = digest_bytes(format!("ghost{}", g.below(1000)).as_bytes());
+                                let blocks: Vec<&String> = keys.iter().filter(|k| k.ends_with(".delta")).collect();
+                                let (parents, idx) = match (blocks.is_empty(), g.chance(1, 3)) {
+                                    (false, false) => {
+                                        let b = g.pick(&blocks).trim_end_matches(".delta").to_string();
+                                        let i: u32 = b.split('-').next().and_then(|x| x.parse().ok()).unwrap_or(1);
+                                        (json!([b]), i + 1)
+                                    }
+                                    _ => (json!([]), 1),
+                                };
+                                let rec = if g.chance(1, 2) { json!(["ghost", format!("1-{}", ghost), "e"]) } else { json!(["ghost", ghost]) };
+                                let mut m = Map::new();
+                                m.insert("c".into(), json!([rec]));
+                                if parents.as_array().map(|a| !a.is_empty()).unwrap_or(false) {
+                                    m.insert("p".into(), parents);
+                                }
+                                let b = js(&Value::from(m)).into_bytes();
+                                forced_name = Some(format!("{}-{}.delta", idx, digest_bytes(&b)));
+                                b
+                            }
                             0 => b"{\"c\":[[\"\\u221a\",\"abc\"]]}".to_vec(),
                             1 => b"not json".to_vec(),
                             2 => b"[{\"injected\":true}]".to_vec(),
@@ -1812,6 +1836,7 @@ impl World {
                             7 => format!("{}-{}x.delta", 1, dg),
                             _ => format!("junk{}.delta", g.below(10)),
                         };
+                        let name = forced_name.unwrap_or(name);
                         desc.push(format!("inject {}", name));
                         dmg.entry(name).or_insert(body);
                     }
@@ -1889,7 +1914,9 @@ impl World {
                             let expect_c = strip_blocked(&fresh_obs(&closed));
                             let got_c = strip_blocked(&got);
                             if got_c != expect_c {
-                                fails.push(("C10", format!("opening damaged storage ({}) yields a state that is not derived from the causally complete items: {}", desc.join(", "), first_diff(&expect_c, &got_c))));
+                                let w = format!("opening damaged storage ({}) yields a state that is not derived from the causally complete items: {}", desc.join(", "), first_diff(&expect_c, &got_c));
+                                fails.push(("C10", w.clone()));
+                                fails.push(("C02", w));
                             }
                         }
                     }
@@ -2281,6 +2308,20 @@ fn collect_objects(v: &Value, out: &mut Vec<(String, String)>) {
 /// would refuse for other reasons stay: the result is only ever compared with the library's own view of it.)
 fn causally_complete(intact: &Items) -> Items {
     let mut parents: BTreeMap<String, (Vec<String>, Vec<String>)> = BTreeMap::new();
+    // digests of the objects held by the (hash-valid) packs
+    let mut stored: BTreeSet<String> = BTreeSet::new();
+    for (k, v) in intact {
+        if k.ends_with(".pack") {
+            if let Ok(Value::Array(objs)) = serde_json::from_slice::<Value>(v) {
+                for o in objs {
+                    stored.insert(digest_string(&js(&o)));
+                }
+            }
+        }
+    }
+    // a revision needs no stored body when its digest is a marker or a character code
+    let readable = |dg: &str| dg == "d" || dg == "r" || dg == "e" || (dg.len() <= 8 && u32::from_str_radix(dg, 16).is_ok()) || stored.contains(dg);
+    let rev_digest = |rev: &str| -> String { rev.splitn(2, '-').nth(1).unwrap_or("").split('_').next().unwrap_or("").to_string() };
     for (k, v) in intact {
         if let Some(id) = k.strip_suffix(".delta") {
             if let Ok(Value::Object(o)) = serde_json::from_slice::<Value>(v) {
@@ -2296,7 +2337,17 @@ fn causally_complete(intact: &Items) -> Items {
                     // consistency: a valid block copied under another index is junk)
                     let idx = |s: &str| s.split('-').next().and_then(|i| i.parse::<u64>().ok());
                     let want = ps.iter().filter_map(|p| idx(p)).max().unwrap_or(0) + 1;
-                    if idx(id) == Some(want) {
+                    // every object a change record refers to (the new revision's and, for an update, the previous
+                    // revision's) must be stored
+                    let objects_ok = match o.get("c") {
+                        Some(Value::Array(cs)) => cs.iter().all(|c| match c.as_array().map(|r| r.iter().map(|x| x.as_str()).collect::<Vec<_>>()) {
+                            Some(r) if r.len() == 2 => r[1].map(|d| readable(d)).unwrap_or(true),
+                            Some(r) if r.len() == 3 => r[2].map(|d| readable(d)).unwrap_or(true) && r[1].map(|p| readable(&rev_digest(p))).unwrap_or(true),
+                            _ => true,
+                        }),
+                        _ => true,
+                    };
+                    if idx(id) == Some(want) && objects_ok {
                         parents.insert(id.to_string(), (ps, ks));
                     }
                 }
